@@ -8,7 +8,7 @@ from .. import gen, impl, oracle, ser, stream
 
 ID = "C10"
 LEVEL = "proof"
-PROPS_MODULE = "SymmModel.Props.C10All"
+PROPS_MODULE = "SymmModel.Props.C10All2"
 THEOREMS = [
     "SymmModel.C10.oddposDag_involutive",
     "SymmModel.C10.Index.conj_conj",
@@ -39,10 +39,26 @@ THEOREMS = [
     "SymmModel.C10.norm_conj_orders_agree",
     "SymmModel.C10.norm_conj_dual_label",
     "SymmModel.C10.norm_conj_needs_dual_option",
-    "SymmModel.C10.norm_conj_needs_ket_label"
+    "SymmModel.C10.norm_conj_needs_ket_label",
+    "SymmModel.C10.braOf_def",
+    "SymmModel.C10.dangling_eq",
+    "SymmModel.C10.oneKet_iff",
+    "SymmModel.C10.ketLabels_iff",
+    "SymmModel.C10.ketLabels_of_oneKet",
+    "SymmModel.C10.braOf_elem",
+    "SymmModel.C10.bra_pair_sign",
+    "SymmModel.C10.conj_tensordot",
+    "SymmModel.C10.norm_conj_labels",
+    "SymmModel.C10.norm_conj_swapped_labels",
+    "SymmModel.C10.resolveScan_nested",
+    "SymmModel.C10.network_norm_halves_partial",
+    "SymmModel.C10.network_norm_halves_any_order_partial",
+    "SymmModel.C10.halves_bond_order",
+    "SymmModel.C10.network_norm_routes_agree_partial",
+    "SymmModel.C10.network_norm_needs_flips"
 ]
-LEAN_FILES = ["SymmModel.Props.C10", "SymmModel.Proofs.LazyLemmas", "SymmModel.Props.C10b", "SymmModel.Proofs.NormLemmas"]
-PLANNED = ["network form of the norm (conjugating a 2-3 tensor network tensor by tensor)"]
+LEAN_FILES = ["SymmModel.Props.C10", "SymmModel.Proofs.LazyLemmas", "SymmModel.Props.C10b", "SymmModel.Proofs.NormLemmas", "SymmModel.Props.C10c", "SymmModel.Props.C10All2", "SymmModel.Proofs.NormNet1", "SymmModel.Proofs.NormNet2", "SymmModel.Proofs.NormNet3", "SymmModel.Proofs.NormNet4", "SymmModel.Proofs.NormNet5", "SymmModel.Proofs.NormNet6", "SymmModel.Proofs.NormNetLabels"]
+PLANNED = ["network norm along routes other than halves-first (needs tensordotF associativity, C04 S7)", "halves in the other operand order", "three-tensor chains", "mode = fused"]
 RULE = ("random fermionic arrays (all symmetries, every dualness pattern, even/odd charge with labels, pending signs, "
         "real/complex): <x|x> through conj (all-ket or phase_dual) in both operand orders equals the exact integer "
         "sum |x|^2; conj/dagger involutions; dagger == transpose(conj) for both settings of phase_dual; 2-3 tensor "
